@@ -12,6 +12,11 @@ DESCR = {
                          "generated/DriverGen.v; the refinement generated code -> model (proofs/DriverTie.v, for all arguments) is "
                          "compiled with the property's theorem file; one case per translated function"),
     "translate_core": ("G:tracker source translator", "see core_units.g_unit"),
+    "translate_conv": ("G:converter source translator",
+                       "ast translation (harness/pytrans.py, fail-closed) of Converter.position2value, value2position, value2para, para2value "
+                       "(converter.py; enumerate / zip loops, dictionary build and lookup by parameter name) into generated/ConvGen.v; the nearest-value "
+                       "argmin expression is pinned by text to the model's nearest_index, the batched / dataframe conversions and not_in_constraint by "
+                       "digest; proofs/ConvTie.v proves the four generated functions EQUAL to theories/Converter.v"),
     "translate_pop": ("G:population split source translator",
                       "ast translation (harness/pytrans.py, fail-closed) of split(positions_l, population) of pop_opt/base_population_optimizer.py "
                       "(two nested for loops, ceiling division pinned by text) into generated/PopGen.v; _create_population pinned by digest; "
@@ -84,7 +89,7 @@ def g_unit(ctx, modname):
     return u
 
 
-ALL_TRANSLATORS = ["translate_core", "translate_driver", "translate_grid", "translate_search", "translate_memory", "translate_results", "translate_coreopt", "translate_init", "translate_smbo", "translate_finish", "translate_pop"]
+ALL_TRANSLATORS = ["translate_core", "translate_driver", "translate_grid", "translate_search", "translate_memory", "translate_results", "translate_coreopt", "translate_init", "translate_smbo", "translate_finish", "translate_pop", "translate_conv"]
 
 
 def refresh_all(ctx):
